@@ -23,12 +23,12 @@ func scenarios(thorough bool) []poolh.Params {
 		{Max: 2, Callers: 3, CallsEach: 1, Env: []string{"kill:1"}},
 		{Max: 1, Callers: 2, CallsEach: 1, Env: []string{"cancel:1", "kill:1"}},
 		{Max: 1, Callers: 4, CallsEach: 1, Staged: true, Env: []string{"finish", "cancel:2", "kill:1"}},
-		{Max: 1, Callers: 3, CallsEach: 1, Staged: true, Env: []string{"finish", "cancel:2", "kill:1"}},
 	}
 	if thorough {
 		s = append(s,
 			poolh.Params{Max: 1, Callers: 3, CallsEach: 1, Env: []string{"kill:1"}},
 			poolh.Params{Max: 1, Callers: 3, CallsEach: 1, Env: []string{"cancel:2", "kill:1"}},
+			poolh.Params{Max: 1, Callers: 3, CallsEach: 1, Staged: true, Env: []string{"finish", "cancel:2", "kill:1"}},
 			poolh.Params{Max: 2, Callers: 3, CallsEach: 2, Env: []string{"kill:2"}},
 			poolh.Params{Max: 2, Callers: 3, CallsEach: 1, SlowReady: true, Env: []string{"kill:1", "cancel:2"}},
 		)
@@ -75,14 +75,14 @@ func main() {
 			sz++
 		}
 		b := bound
-		if (!c.Thorough() && sz > 3) || sz > 5 {
+		if (!c.Thorough() && sz > 3) || sz > 4 {
 			b = 1
 		}
 		sc := mk(scs[u.sc])
 		if scs[u.sc].Staged {
 			// the staged driver fixes the order in which callers arrive; what remains free is the race of the environment events
 			b = 1
-			sc.FreeBound = 5
+			sc.FreeBound = 4
 			if c.Thorough() {
 				b = 2
 				sc.FreeBound = 6
